@@ -72,6 +72,10 @@ def generate(rng, tier, index):
                         "rpc": rng.choice([None, 1, 2, n, 4096])})
         elif k in ("rm-user", "rm-adjacent"):
             ops.append({"op": k, "image": rng.choice([None, rng.randrange(len(wp["images"]))])})
+            if k == "rm-user" and ops[-1]["image"] is None:
+                # how much the user removes: the index files, the product's cache directory,
+                # the library's cache directory, the whole cache home
+                ops[-1]["depth"] = rng.choice(["files", "hashdir", "appdir", "xdg"])
         elif k == "late-load":
             ops.append({"op": "late-load", "back": rng.randint(1, 4)})
         elif k == "scribble":
@@ -99,6 +103,10 @@ def generate(rng, tier, index):
             [o(create_cache=True), {"op": "rm-user", "image": 0}, o(create_cache=True), o()],
             [o(), o(create_cache=True), o(), o(use_cache=False)],
             [o(rpc=1), o(rpc=n + 1, create_cache=True), o(rpc=2), o(rpc=None)],
+            # rm -rf of the cache directory (at some level), then creation again in the same process
+            [o(create_cache=True), {"op": "rm-user", "image": None,
+                                    "depth": rng.choice(["hashdir", "appdir", "xdg"])},
+             o(create_cache=True), o()],
         ]
         if local:
             motifs += [
@@ -232,7 +240,7 @@ def execute(plan):
                     expected_adjacent.pop(img + ".index", None)
             elif kind == "rm-user":
                 img = None if op["image"] is None else prod.images[op["image"]]
-                w.clear_user_cache(img)
+                w.clear_user_cache(img, depth=op.get("depth", "files"))
                 user_before = w.user_cache()
             elif kind == "rm-adjacent":
                 img = None if op["image"] is None else prod.images[op["image"]]
